@@ -85,16 +85,25 @@ def r1f_optional(repo, rep, closure):
           what, src_expr, name = site
           n_sites += 1
           ok, why = discharged_in_diag(f, ctx, node, sub, src_expr, name, xonly, sn)
+          if not ok:
+            und = undecided_in_diag(f, ctx, node, name, xonly, sn, opt)
+            if und:
+              rep.undecided('R1f/optional-deref', '%s: %s of self.%s' % (f.name, what, name), und, f.loc(sub))
+              continue
           rep.check(ok, 'R1f/optional-deref', '%s: %s of self.%s is reached only when it is not None (%s)' % (f.name, what, name, why), f.qualname,
                     '%s of self.%s: %s' % (what, name, norm(sub)[:80]),
                     '%s %s the result of self.%s, which is None when the control series is missing%s, with no guard excluding that case: TypeError/AttributeError escapes instead of ValueError'
                     % (f.qualname, what, name, '' if name in xonly else ' (or under another condition)'), f.loc(sub))
   # (ii) TBRMMScore: self.diag.<opt> under the class invariant "diag.x is not None"
   scls = repo.cls(SCORE)
-  inv = score_invariant(scls)
-  rep.check(inv, 'R1f/optional-deref', 'TBRMMScore rejects a diagnostics object without control series (class invariant)', scls.qualname + '.__post_init__',
-            'guard `self.diag.x is None -> raise ValueError`',
-            'TBRMMScore.__post_init__ no longer rejects diagnostics without a control series: computing the score dereferences None (TypeError) instead of raising ValueError', scls.loc())
+  inv3 = score_invariant3(scls)
+  inv = bool(inv3)
+  if inv3 is None:
+    rep.undecided('R1f/optional-deref', 'TBRMMScore class invariant', '__post_init__ consults the control series and raises, but not in the recognised form `if self.diag.x is None: raise`', scls.loc())
+  else:
+    rep.check(inv, 'R1f/optional-deref', 'TBRMMScore rejects a diagnostics object without control series (class invariant)', scls.qualname + '.__post_init__',
+              'guard `self.diag.x is None -> raise ValueError`',
+              'TBRMMScore.__post_init__ no longer rejects diagnostics without a control series: computing the score dereferences None (TypeError) instead of raising ValueError', scls.loc())
   for f in scls.all_functions():
     ctx = FuncCtx.of(f)
     for node in ctx.g.nodes:
@@ -106,6 +115,11 @@ def r1f_optional(repo, rep, closure):
           what, src_expr, name = site
           n_sites += 1
           ok = inv and name in xonly and not stores_diag_x(scls)
+          if not ok and (inv3 is None or (inv and name not in xonly)):
+            rep.undecided('R1f/optional-deref', 'TBRMMScore.%s: %s of diag.%s' % (f.name, what, name),
+                          'the class invariant is not established in the recognised form' if inv3 is None else
+                          'when diag.%s is None is not established (its None-returning paths are not all of the form "the control series is missing")' % name, f.loc(sub))
+            continue
           rep.check(ok, 'R1f/optional-deref', 'TBRMMScore.%s: %s of diag.%s is safe under the class invariant' % (f.name, what, name), f.qualname,
                     '%s of self.diag.%s' % (what, name), 'TBRMMScore.%s %s self.diag.%s, which can be None' % (f.name, what, name), f.loc(sub))
   # (iii) TBRMatchedMarkets: D.<opt> on local diagnostics objects needs a dominating `D.x = <series>`
@@ -125,12 +139,99 @@ def r1f_optional(repo, rep, closure):
           n_sites += 1
           xs = [n for n in doms.get(node, ()) if n.kind == 'stmt' and isinstance(n.ast, ast.Assign) and any(norm(t) == '%s.x' % D for t in n.ast.targets)]
           okx = bool(xs) and all(not au.is_const(n.ast.value, None) for n in xs) and name in xonly
+          if not okx:
+            why_und = ''
+            if bool(xs) and name not in xonly:
+              why_und = 'when %s.%s is None is not established' % (D, name)
+            elif not xs:
+              stores_any = [n for n in g.nodes if n.kind == 'stmt' and isinstance(n.ast, ast.Assign) and any(norm(t) == '%s.x' % D for t in n.ast.targets)]
+              escapes = [y for n in g.nodes for e_ in ctx.node_exprs(n) for y in ast.walk(e_)
+                         if isinstance(y, ast.Call) and any(isinstance(a_, ast.Name) and a_.id == D for a_ in list(y.args) + [k.value for k in y.keywords])
+                         and norm(y.func).split('.')[-1] not in ('deepcopy', 'copy', 'TBRMMScore', 'TBRMMDesign')]
+              if stores_any:
+                why_und = 'a store to %s.x exists but does not dominate this use on every path' % D if False else ''
+              if escapes:
+                why_und = '%s is handed to %s, which may set its control series' % (D, norm(escapes[0].func)[:40])
+            if why_und:
+              rep.undecided('R1f/optional-deref', '%s: %s of %s.%s' % (f.name, what, D, name), why_und, f.loc(sub))
+              continue
           rep.check(okx, 'R1f/optional-deref', '%s: %s of %s.%s after %s.x was set' % (f.name, what, D, name, D), f.qualname, '%s of %s.%s' % (what, D, name),
                     '%s %s %s.%s, but no assignment of a control series to %s.x dominates this use: the value can be None' % (f.name, what, D, name, D), f.loc(sub))
   rep.floor('Optional dereference sites examined', n_sites, 8)
   # (iv) the score getter dereferences A/A results that are None for windows shorter than n_test + 3: it may be evaluated only on
   #      score objects of data-derived diagnostics (covered by the property's precondition) unless a score was stored first
   r1f_score_precondition(repo, rep, closure)
+  r1f_aa_window(repo, rep)
+
+
+def r1f_aa_window(repo, rep):
+  """The A/A result is unavailable (all-None) exactly for windows with fewer than n_test + _min_timepoints points: the
+  guard of that return, as an integer linear form, is len(y) - n_test - _min_timepoints < 0.  A recognised linear guard
+  with another threshold makes the score of a design on the smallest admitted window dereference None."""
+  from mmsa import linform
+  dcls = repo.cls(DIAG)
+  f = dcls.getters.get('aatest')
+  if f is None:
+    rep.undecided('R1f/aa-window', 'TBRMMDiagnostics.aatest', 'the aatest property vanished', dcls.loc())
+    return
+  ctx = FuncCtx.of(f)
+  g, rd = ctx.g, ctx.rd
+  mt = dcls.attrs.get('_min_timepoints')
+  consts = {}
+  if isinstance(mt, ast.Constant) and isinstance(mt.value, int) and '_min_timepoints' not in _stored(dcls):
+    consts = {'self._min_timepoints': mt.value, 'TBRMMDiagnostics._min_timepoints': mt.value}
+  def all_none(v):
+    return isinstance(v, ast.Call) and v.args and all(au.is_const(a, None) for a in v.args) and not v.keywords
+  rets = [n for n in g.nodes if n.kind == 'return' and n.ast.value is not None and all_none(rd.expand(n, n.ast.value)[0])]
+  if not rets or not consts:
+    rep.undecided('R1f/aa-window', 'TBRMMDiagnostics.aatest', 'no all-None result is returned by aatest in the recognised form (or _min_timepoints is not a class constant)', f.loc())
+    return
+  want_atoms = {'len(self._y)': 1, 'self._par.n_test': -1}
+  want_const = 1 - consts['self._min_timepoints']
+  n = 0
+  for r in rets:
+    for path in pathcond.paths_to(g, lambda m: m is r, back_limit=0, max_paths=200):
+      pf = pathcond.PathFacts(path, rd)
+      if not pf.feasible:
+        continue
+      for conj in pf.dnf:
+        found = None
+        for e, t in conj:
+          txt = norm(e)
+          if 'len(' not in txt:
+            continue
+          e2 = ast.parse(re.sub(r'len\((self\.)?_?y\)', 'len(self._y)', txt), mode='eval').body
+          cf = linform.canonical(e2, t, consts)
+          if cf is None or len(cf) != 1:
+            found = ('unknown', txt)
+            continue
+          co, c = cf[0]
+          if co == want_atoms:
+            found = ('ok', txt) if c == want_const else ('shift', txt, c - want_const)
+            break
+          found = ('unknown', txt)
+        n += 1
+        if found is None:
+          rep.undecided('R1f/aa-window', 'aatest: all-None result', 'returned on a path without a test of the window length', f.loc(r.ast))
+        elif found[0] == 'ok':
+          rep.ok('R1f/aa-window', 'aatest is unavailable exactly when len(y) - n_test < _min_timepoints (`%s`)' % found[1][:60], loc=f.loc(r.ast))
+        elif found[0] == 'shift':
+          rep.violation('R1f/aa-window', f.qualname, 'all-None result under %s' % found[1][:80],
+                        'aatest returns its all-None result when `%s`, i.e. for windows up to n_test + %d points instead of fewer than n_test + %d: on the smallest admitted window '
+                        'the score dereferences None (TypeError escapes the search)' % (found[1][:80], consts['self._min_timepoints'] - 1 + found[2], consts['self._min_timepoints']),
+                        f.loc(r.ast))
+        else:
+          rep.undecided('R1f/aa-window', 'aatest: all-None result', 'the window test `%s` is not an integer-linear comparison of len(y), n_test and the class constant' % found[1][:60], f.loc(r.ast))
+  rep.extra['aa_window_guards'] = n
+
+
+def _stored(cls):
+  out = set()
+  for m in cls.all_functions():
+    for t in ast.walk(m.node):
+      if isinstance(t, ast.Attribute) and isinstance(t.ctx, ast.Store):
+        out.add(t.attr)
+  return out
 
 
 def deref_of(sub, is_src, rd, node):
@@ -201,6 +302,50 @@ def discharged_in_diag(f, ctx, node, sub, src_expr, name, xonly, sn):
           return True, 'short-circuit after self.%s' % first.attr
     cur, par = par, getattr(par, '_parent', None)
   return False, ''
+
+
+def undecided_in_diag(f, ctx, node, name, xonly, sn, opt):
+  """Why a dereference that is not discharged is nevertheless no positive finding: the conditions under which the
+  member is None are not established, or a path to the use carries a None-related test in a form that is not followed.
+  Returns '' when the use is reachable on a path that visibly tests none of the Optional members (a witness)."""
+  if name not in xonly:
+    return 'when self.%s is None is not established (its None-returning paths are not all of the form "the control series is missing")' % name
+  g, rd = ctx.g, ctx.rd
+  try:
+    paths = pathcond.paths_to(g, lambda m: m is node, back_limit=0, max_paths=300)
+  except Undecided as ex:
+    return str(ex)
+  members = set(opt) | {'x', '_x'}
+  for p in paths:
+    pf = pathcond.PathFacts(p, rd)
+    if not pf.feasible:
+      continue
+    for conj in pf.dnf:
+      related = [(e, t) for e, t in conj if any(isinstance(y, ast.Attribute) and y.attr in members for y in ast.walk(e))]
+      recognised = all(re.fullmatch(r'%s\.\w+( is None)?' % re.escape(sn), norm(e)) for e, t in related)
+      if not recognised:
+        return 'a path to the use tests `%s`, a form that is not followed' % norm([e for e, t in related if not re.fullmatch(r'%s\.\w+( is None)?' % re.escape(sn), norm(e))][0])[:60]
+  # expression-level guards (conditional expressions, and/or chains) around the use are not path conditions
+  for e in ctx.node_exprs(node):
+    for y in ast.walk(e):
+      if isinstance(y, (ast.IfExp, ast.BoolOp)) and any(isinstance(z, ast.Attribute) and z.attr in members for z in ast.walk(y.test if isinstance(y, ast.IfExp) else y.values[0])):
+        return 'the use sits in a conditional expression that tests an Optional member'
+  return ''
+
+
+def score_invariant3(scls):
+  """True: recognised guard; False: __post_init__ visibly has no rejection related to the control series; None: unknown."""
+  if score_invariant(scls):
+    return True
+  f = scls.methods.get('__post_init__')
+  if f is None:
+    return False
+  mentions = any(isinstance(y, ast.Attribute) and y.attr in ('x', '_x') for y in ast.walk(f.node))
+  raises = any(isinstance(y, ast.Raise) for y in ast.walk(f.node))
+  calls_out = any(isinstance(y, ast.Call) and isinstance(y.func, ast.Attribute) and isinstance(y.func.value, ast.Name) and y.func.value.id != 'self' and False for y in ast.walk(f.node))
+  if mentions and raises:
+    return None
+  return False
 
 
 def score_invariant(scls):
@@ -310,7 +455,14 @@ def r1d_greedy_keys(repo, rep):
       for sub in walk_no_nested(e):
         if isinstance(sub, ast.Subscript) and isinstance(sub.ctx, ast.Load) and isinstance(sub.value, ast.Name) and sub.value.id in dicts:
           loads.append((node, sub))
-  rep.floor('dictionary subscript loads in greedy_search', len(loads), 8)
+  in_loop_loads = [1 for node, sub in loads if inside(node)]
+  if not dicts or not in_loop_loads:
+    # the tables of the certificate (local dict displays subscripted inside the loop) are not there: the per-size state
+    # is kept in another structure, for which the key certificate does not apply
+    rep.undecided('R1d/dict-keys', 'greedy_search', 'no local dictionary is subscripted inside the loop (%d local dict displays, %d subscript loads): the per-size tables are not in the recognised form'
+                  % (len(dicts), len(loads)), f.loc(w))
+    return
+  rep.floor('dictionary subscript loads in greedy_search', len(loads), 4)
   # identify roles: the flag and the counter from the loop guard
   t = w.test
   parts = [t.left, t.right] if isinstance(t, ast.BinOp) and isinstance(t.op, ast.BitOr) else (list(t.values) if isinstance(t, ast.BoolOp) and isinstance(t.op, ast.Or) else [])
